@@ -281,6 +281,9 @@ def run_check(modname, tier, seed, canary=None, quiet=False):
     validated = 0
     mismatches = []
     val_violations = []  # violations found while validating paths on the plain code (already reproduced)
+    pre_violations = []
+    if hasattr(mod, "precheck"):
+        pre_violations = list(mod.precheck())
     pending = deque((t, None, 2.0, 100000) for t in tasks)
     inflight = {}
     vflight = set()
@@ -385,6 +388,8 @@ def run_check(modname, tier, seed, canary=None, quiet=False):
     cap = getattr(mod, "REPLAY_CAP", 400)
     results = list(plain_pool.map(_replay_one, todo[:cap], chunksize=4)) if todo else []
     _kill_pool(plain_pool)
+    for rr in pre_violations:
+        val_violations.append(({"id": "precheck", "harness": "precheck", "args": ()}, rr.get("inputs", {}), rr))
     for task, inputs, rr in val_violations:
         todo.insert(0, (task, rr.get("label", "validation"), inputs, rr.get("extra")))
         results.insert(0, dict(rr, reproduced=True))
